@@ -1,3 +1,5 @@
+import GenlmModel.Proofs.GenLink.CfgSpawn
+import GenlmModel.Proofs.GenLink.CfgUnfold
 import Batteries.Tactic.Alias
 import GenlmModel.Proofs.UCycle
 import GenlmModel.Proofs.SepStart
@@ -65,4 +67,14 @@ alias unary_cycle_removal_true_limit := Genlm.ucycle_WL
 exactly the weighted language of the input — every string, the empty one included -/
 alias cnf_correct_limit := Genlm.cnfL_correct
 alias cnf_preserves_limit := Genlm.cnfL_WL
+
+/-! ## re-checked tie to the source: the definitions REGENERATED from the Python functions on every run
+(`Generated/Builders.lean` / `Generated/Folds.lean`, by `harness/translate.py`) are the hand-written models the theorems here are about -/
+alias gen_CFG_spawn_eq_model := Genlm.gen_CFG_spawn_eq_model
+alias gen_CFG_spawn_start := Genlm.gen_CFG_spawn_start
+alias gen_CFG_separate_start_eq_model := Genlm.gen_CFG_separate_start_eq_model
+alias gen_CFG_rename_eq_model := Genlm.gen_CFG_rename_eq_model
+alias gen_CFG_separate_start_derivation_sums := Genlm.gen_CFG_separate_start_WN
+alias gen_CFG_unfold_eq_model := Genlm.gen_CFG_unfold_eq_model
+alias gen_CFG_unfold_none := Genlm.gen_CFG_unfold_none
 end Genlm.Props.C06
